@@ -269,11 +269,8 @@ def render_doc(case):
     def walk(box, pi):
         el = getattr(box, 'element', None)
         if el is not None and not isinstance(box, (bx.TextBox, bx.LineBox)) and box.element_tag == el.tag:
-            if el.get('id') or el.get('href'):
-                try:
-                    geo.append([pi, el.get('id'), el.tag, list(box.hit_area()), type(box).__name__])
-                except Exception:
-                    pass
+            if el.get('data-k'):
+                geo.append([pi, el.get('data-k'), el.get('id'), el.tag, list(box.hit_area()), type(box).__name__])
         for c in box.all_children():
             walk(c, pi)
     for pi, p in enumerate(doc.pages):
